@@ -385,8 +385,13 @@ func c15Body(c *core.Ctx) {
 				if !strings.HasPrefix(name, "qr:") && !strings.HasPrefix(name, "dm:") {
 					continue // only these can change the key; guarded by the raw sequences below
 				}
-				qr.VerifRestore(nd.qr)
-				datamatrix.VerifRestore(nd.dm)
+				if !qr.VerifRestore(nd.qr) || !datamatrix.VerifRestore(nd.dm) {
+					// the caches cannot be put back through the hook (their layout changed): replay the path
+					resetCaches()
+					for _, n := range nd.path {
+						Safely(func() { ops[pureOpIdx[n]].run() })
+					}
+				}
 				Safely(func() { ops[pureOpIdx[name]].run() })
 				k := cachesKey()
 				if !seen[k] {
